@@ -349,8 +349,9 @@ def run(index, rep, tier):
                   "%s annotates the tree with %s%s rather than the score at the maximising index" % (fi.qualname, sname, scs))
     for calc in ("calculate_log_product_of_split_supports", "calculate_sum_of_split_supports"):
         fi = index.function(TA + "." + calc)
-        apps = [c for c in calls_in(fi.node) if isinstance(c.func, ast.Attribute) and c.func.attr == "append" and norm(c.func.value) == "scores"]
         ret = [n for n in walk_no_nested(fi.node) if isinstance(n, ast.Return)]
+        svar = norm(ret[0].value.elts[0]) if ret and isinstance(ret[0].value, ast.Tuple) and ret[0].value.elts else "scores"
+        apps = [c for c in calls_in(fi.node) if isinstance(c.func, ast.Attribute) and c.func.attr == "append" and norm(c.func.value) == svar]
         if len(apps) != 1 or not ret:
             raise AnalysisError("R05.5: %s shape not recognised" % calc)
         val = norm(apps[0].args[0])
@@ -373,7 +374,7 @@ def run(index, rep, tier):
         ok = any({norm(a) for a in z.args} == {"self._tree_leafset_bitmasks", "self._tree_split_bitmasks"} for z in zips)
         rep.check(ok, "R05.5", fi.qualname, "per-tree iteration", fn_where(fi), "%s walks the per-tree leafset and split lists in step" % calc,
                   "%s no longer iterates zip(_tree_leafset_bitmasks, _tree_split_bitmasks)" % fi.qualname)
-        sf = [n for n in walk_no_nested(fi.node) if isinstance(n, ast.Assign) and norm(n.targets[0]) == "split_frequencies"]
+        sf = [n for n in walk_no_nested(fi.node) if isinstance(n, ast.Assign) and "split_frequencies" in norm(n.value) and isinstance(n.targets[0], ast.Name)]
         ok = bool(sf) and norm(sf[0].value) in ("self._split_distribution.split_frequencies", "self.split_distribution.split_frequencies",
                                                 "self._split_distribution._get_split_frequencies()")
         rep.check(ok, "R05.5", fi.qualname, "frequency table source", fn_where(fi), "%s reads the collection's own (fresh) frequency table" % calc,
@@ -400,8 +401,10 @@ def run(index, rep, tier):
     # ---------------- R05.7
     st = index.function("dendropy.calculate.statistics.summarize")
     produced = set()
+    srets = [norm(n.value) for n in walk_no_nested(st.node) if isinstance(n, ast.Return) and n.value is not None]
+    svar = srets[-1] if srets else "summary"
     for n in walk_no_nested(st.node):
-        if isinstance(n, ast.Subscript) and isinstance(n.ctx, ast.Store) and norm(n.value) == "summary" and isinstance(n.slice, ast.Constant):
+        if isinstance(n, ast.Subscript) and isinstance(n.ctx, ast.Store) and norm(n.value) == svar and isinstance(n.slice, ast.Constant):
             produced.add(n.slice.value)
     rep.floor("R05.7", "keys produced by statistics.summarize", 5, len(produced))
     names = sd.class_attrs.get("SUMMARY_STATS_FIELDNAMES")
